@@ -80,12 +80,16 @@ def run_case(case, rec, cid):
         hastw = bool(a.get_is_in_weeks() or a.days is not None)
 
         def g():
-            return dict(fd=proj_dur(a // k), ab=proj_dur(abs(a)), tw=proj_dur(a.to_weeks()) if hastw else proj_dur(None), bl=bool(a))
+            twid = True
+            if hastw:
+                x = a.to_weeks()          # a derived value is a Duration like any other: the empty duration is its identity
+                twid = bool(x + Duration() == x and Duration() + x == x and hash(x + Duration()) == hash(x) and (x + b) - b == x)
+            return dict(fd=proj_dur(a // k), ab=proj_dur(abs(a)), tw=proj_dur(a.to_weeks()) if hastw else proj_dur(None), bl=bool(a), twid=twid)
         st, v = outcome(g)
         if st == "ok":
             rec.ev("DurExt", cid, a=pa, n=k, hastw=hastw, ok=True, cls="", **v)
         else:
-            rec.ev("DurExt", cid, a=pa, n=k, hastw=hastw, ok=False, cls=type(v).__name__, fd=pa, ab=pa, tw=pa, bl=False)
+            rec.ev("DurExt", cid, a=pa, n=k, hastw=hastw, ok=False, cls=type(v).__name__, fd=pa, ab=pa, tw=pa, bl=False, twid=True)
     return True
 
 
@@ -151,6 +155,15 @@ def expand(job):
             k = rnd.choice(["s", "s", "s", "mi", "d"])
             b[k] = b.get(k, 0) + rnd.choice([1, -1, 2, 0])
             yield {"mode": gen.spelling(rnd), "a": a, "b": b, "c": rand_dur(rnd, nominal=False), "n": rnd.randint(-2, 2)}
+            continue
+        if y < 0.13 and y >= 0.10:
+            # components that cancel: the same length as the empty duration (or as a plain spelling), written with non-zero fields
+            a = dict(rnd.choice([{"d": 1, "h": -24}, {"h": 1, "mi": -60}, {"d": 2, "h": -48}, {"mi": 90, "h": -1, "s": -1800}, {"d": -1, "s": 86400},
+                                 {"d": 1, "h": -23}, {"h": 25, "d": -1}]))
+            b = dict(rnd.choice([{"s": 0}, {"h": 0}, {"h": 1}, {"d": 0, "mi": 60}, {"s": 3600}]))
+            if rnd.random() < 0.5:
+                a, b = b, a
+            yield {"mode": gen.spelling(rnd), "a": a, "b": b, "c": rand_dur(rnd), "n": rnd.randint(-3, 3)}
             continue
         if y < 0.10:
             # a decimal spelling and the whole-number spelling of the same length in a finer unit (1,1 h = 66 min):
